@@ -251,6 +251,7 @@ Definition ideal (r : rscript) (w : wscript) (d : dscript) : bytes :=
 Record tscript := {
   t_reads : rscript; t_writes : wscript; t_dls : dscript;
   t_cdst : option gerr; t_csrc : option gerr;
+  t_csrc_blocks : bool;      (* the asynchronous Close(src) never returns *)
 }.
 
 Record thread := {
@@ -259,7 +260,8 @@ Record thread := {
   th_rlog : rscript; th_wlog : wscript; th_dlog : dscript;
 }.
 
-Inductive cl_state := CNot | CPending | CDone.
+(* source closer: not started | started, about to call Close | returned | inside Close forever *)
+Inductive cl_state := CNot | CPending | CDone | CBlocked.
 Inductive main_pc := MWait | MFinal | MDone.      (* wg.Wait(); removeSession + deferred covertConn.Close(); returned *)
 Inductive tid := TUp | TDown | TUpCl | TDownCl | TMain.
 
@@ -282,7 +284,7 @@ Definition init_cfg (g0 : Z) (su sd : tscript) : cfg :=
      wg := 2; gauge := (g0 + 1)%Z; main := MWait; client_err := None; covert_err := None |}.
 
 Definition set_scr (s : tscript) (r : rscript) (w : wscript) (d : dscript) : tscript :=
-  {| t_reads := r; t_writes := w; t_dls := d; t_cdst := t_cdst s; t_csrc := t_csrc s |}.
+  {| t_reads := r; t_writes := w; t_dls := d; t_cdst := t_cdst s; t_csrc := t_csrc s; t_csrc_blocks := t_csrc_blocks s |}.
 
 (* one call of a direction: [src_closed]/[dst_closed] are the connection states it sees.
    Returns the new thread state. *)
@@ -386,10 +388,13 @@ Definition step (c : cfg) (t : tid) : cfg :=
       match clU c with
       | CPending =>
           (* closeConn(src = A, isSrc = true) of Up: isUpload = isSrc -> covert field *)
-          let res := close_res (closedA c) (t_csrc (th_scr (up c))) in
+          (* the connection is marked closing as soon as Close is entered; a Close that blocks never
+             returns, so it records nothing and its goroutine stays *)
+          let blk := t_csrc_blocks (th_scr (up c)) in
+          let res := if blk then None else close_res (closedA c) (t_csrc (th_scr (up c))) in
           let '(cl, cv) := stats_close res true (client_err c) (covert_err c) in
           {| closedA := true; closedB := closedB c; ncloseA := S (ncloseA c); ncloseB := ncloseB c;
-             up := up c; down := down c; clU := CDone; clD := clD c;
+             up := up c; down := down c; clU := if blk then CBlocked else CDone; clD := clD c;
              wg := wg c; gauge := gauge c; main := main c; client_err := cl; covert_err := cv |}
       | _ => c
       end
@@ -397,10 +402,11 @@ Definition step (c : cfg) (t : tid) : cfg :=
       match clD c with
       | CPending =>
           (* closeConn(src = B, isSrc = true) of Down: isUpload <> isSrc -> client field *)
-          let res := close_res (closedB c) (t_csrc (th_scr (down c))) in
+          let blk := t_csrc_blocks (th_scr (down c)) in
+          let res := if blk then None else close_res (closedB c) (t_csrc (th_scr (down c))) in
           let '(cl, cv) := stats_close res false (client_err c) (covert_err c) in
           {| closedA := closedA c; closedB := true; ncloseA := ncloseA c; ncloseB := S (ncloseB c);
-             up := up c; down := down c; clU := clU c; clD := CDone;
+             up := up c; down := down c; clU := clU c; clD := if blk then CBlocked else CDone;
              wg := wg c; gauge := gauge c; main := main c; client_err := cl; covert_err := cv |}
       | _ => c
       end
@@ -431,9 +437,14 @@ Definition enabled (c : cfg) (t : tid) : bool :=
   | TMain => match main c, wg c with MWait, O => true | MFinal, _ => true | _, _ => false end
   end.
 
+(* a closer is over when it has returned or sits inside the connection's own Close forever *)
+Definition cl_over (s : cl_state) : bool := match s with CDone | CBlocked => true | _ => false end.
+
+(* nothing is left to run: both directions and the caller have returned and no closer is waiting
+   to make its call *)
 Definition finished (c : cfg) : bool :=
   pc_is_done (th_pc (up c)) && pc_is_done (th_pc (down c)) &&
-  match clU c, clD c, main c with CDone, CDone, MDone => true | _, _, _ => false end.
+  cl_over (clU c) && cl_over (clD c) && match main c with MDone => true | _ => false end.
 
 (* a bound on the number of effective steps *)
 Definition pc_rank (p : pc) (k : nat) : nat :=
@@ -447,7 +458,7 @@ Definition pc_rank (p : pc) (k : nat) : nat :=
   | PDl0 => 4 * k + 4
   end.
 Definition thread_measure (t : thread) : nat := pc_rank (th_pc t) (length (t_reads (th_scr t))).
-Definition cl_measure (s : cl_state) : nat := match s with CDone => 0 | _ => 1 end.
+Definition cl_measure (s : cl_state) : nat := match s with CDone | CBlocked => 0 | _ => 1 end.
 Definition main_measure (m : main_pc) : nat := match m with MWait => 2 | MFinal => 1 | MDone => 0 end.
 Definition measure (c : cfg) : nat :=
   2 * thread_measure (up c) + 2 * thread_measure (down c) + cl_measure (clU c) + cl_measure (clD c) + main_measure (main c).
